@@ -2,7 +2,7 @@
    integer-token lines) -> output lines.  The Rust harness implements the same interface
    on top of the real crate. *)
 From Coq Require Import ZArith List.
-From KD Require Import Model.Values Model.Compare Model.Validate Model.Perm Model.Glob Model.Broker Model.BrokerRun Model.Api Model.ApiRun Model.Wire Model.Conc.
+From KD Require Import Model.Values Model.Compare Model.Validate Model.Perm Model.Glob Model.Broker Model.BrokerRun Model.Api Model.ApiRun Model.Wire Model.Conc Model.FloatLit Model.Query Model.QueryRun.
 Open Scope Z_scope.
 
 Definition fam_cmp : Z := 13.
@@ -12,6 +12,7 @@ Definition fam_glob : Z := 14.
 Definition fam_hist : Z := 1.
 Definition fam_trace : Z := 11.
 Definition fam_wire : Z := 15.
+Definition fam_query : Z := 16.
 
 Definition run (fam : Z) (case : list (list Z)) : list (list Z) :=
   if fam =? fam_cmp then map run_cmp_line case
@@ -21,4 +22,5 @@ Definition run (fam : Z) (case : list (list Z)) : list (list Z) :=
   else if fam =? fam_hist then run_api_case case
   else if fam =? fam_trace then map run_trace_line case
   else if fam =? fam_wire then map run_wire_line case
+  else if fam =? fam_query then run_query_case case
   else [[-99]].
